@@ -146,11 +146,11 @@ def has_transc(e):
 # ------------------------------------------------------------------ value streams
 
 FAMILIES = ["ints", "dyadic8", "dyadic1024", "ties", "zeros", "rampup", "rampdown", "spike",
-            "flat_after_volatile", "affine", "sawtooth", "big_small", "tiny", "huge"]
+            "flat_after_volatile", "affine", "sawtooth", "big_small", "tiny", "huge", "decimal", "const_decimal", "fav_decimal"]
 
 
 def stream(rng, family, length, n=4, positive=False):
-    """a list of `length` exact dyadic Fractions"""
+    """a list of `length` exact dyadic Fractions (each is exactly a double)"""
     L = length
     if family == "ints":
         xs = [F(rng.randint(-9, 9)) for _ in range(L)]
@@ -196,6 +196,22 @@ def stream(rng, family, length, n=4, positive=False):
         base = stream(rng, rng.choice(["ints", "dyadic8", "ties", "rampup", "sawtooth", "spike"]), L, n)
         sc = F(2) ** (-40 if family == "tiny" else 30)
         xs = [x * sc for x in base]
+    elif family in ("decimal", "const_decimal", "fav_decimal"):
+        # the doubles nearest to short decimals (0.3, 12.34, 100.1, ...): full 53-bit mantissas, so sums of them are inexact
+        # in f64 — rounding residue appears even on a CONSTANT window.  (Exact Fractions of those doubles: every mode is fed
+        # the same values.)
+        def dc():
+            d = rng.choice([1, 1, 2, 3])
+            return F(float(F(rng.randint(-2000, 2000), 10 ** d) * rng.choice([1, 1, 1, 100])))
+        if family == "decimal":
+            xs = [dc() for _ in range(L)]
+        elif family == "const_decimal":
+            c = F(float(rng.choice([F(3, 10), F(7, 10), F(1001, 10), F(1234, 100), F(1, 10), F(-3, 10), F(2999, 1000), dc()])))
+            xs = [c] * L
+        else:
+            k = max(1, L - (n + 2) - rng.randint(0, n))
+            c = F(float(rng.choice([F(3, 10), F(7, 10), F(1001, 10), F(1234, 100), dc()])))
+            xs = [dc() for _ in range(k)] + [c] * (L - k)
     elif family == "big_small":
         xs = [F(rng.choice([1, 1000])) * F(rng.randint(-16, 16), 16) for _ in range(L)]
     else:
